@@ -90,12 +90,27 @@ def _merge(tsrc, fsrc, mask):
     return tsrc if mask else fsrc
 
 
+def _modulo(lhs, rhs):
+    """MODULO(a, p) = a - FLOOR(a / p) * p (result has the sign of p)."""
+    if not (_isnum(lhs) and _isnum(rhs)):
+        raise UB("type", "modulo")
+    if _isint(lhs) != _isint(rhs):
+        raise UB("type", "modulo with mixed types")
+    if rhs == 0:
+        raise UB("divzero", "modulo")
+    if _isint(lhs):
+        return lhs - (lhs // rhs) * rhs      # Python // floors
+    quo = Fraction(lhs) / Fraction(rhs)
+    return Fraction(lhs) - (quo.numerator // quo.denominator) * Fraction(rhs)
+
+
 ELEMENTAL = {
     "ABS": _nopoison(_abs),
     "SIGN": _nopoison(_sign),
     "MIN": _nopoison(_minmax("MIN")),
     "MAX": _nopoison(_minmax("MAX")),
     "MOD": _nopoison(f_mod),
+    "MODULO": _nopoison(_modulo),
     "INT": _nopoison(lambda v, *k: f_int(v)),
     "NINT": _nopoison(lambda v, *k: f_nint(v)),
     "REAL": _nopoison(lambda v, *k: _real(v)),
